@@ -52,7 +52,7 @@ def gen_doc(rng, uid, indent):
         return '\n'.join(parts), 0, True
     if r < 0.6:
         return '\n'.join([pad + 'Freeform %d.' % uid, '', pad + '>>> print(%d)' % uid, pad + '%d' % uid]), 0, True
-    nblocks = rng.randint(1, 3)
+    nblocks = rng.randint(4, 14) if rng.random() < 0.05 else rng.randint(1, 3)
     lines = [pad + 'Google %d.' % uid, '']
     for b in range(nblocks):
         lines += [pad + rng.choice(GOOGLE_LABELS), pad + '    >>> print(%d, %d)' % (uid, b), pad + '    %d %d' % (uid, b), '']
